@@ -72,6 +72,42 @@ func ZZ_C05_crash_cuts_add() {
 	zz.Reach("add-cuts")
 }
 
+// C05(a) across a sandbox re-creation: the runtime re-creates the pod's
+// sandbox (same pod UID, new sandbox id and netns); the second ADD is
+// answered with the same address.  The acknowledged second ADD is durable:
+// the database record names the new sandbox, so that a late DEL for the old
+// sandbox is recognised as stale and a restart re-binds the address to the
+// live sandbox.
+// zz:noreplay Manager.Allocate/Release are summarised through engine-side overrides
+func ZZ_C05_readd_new_sandbox() {
+	svc, w, kc, st := zzService(daemon.ModeENIMultiIP)
+	kc.pod = zzPodInfo("p0")
+	w.sameOnPinned = true
+	w.noReleaseFaults = true
+	r1, err1 := svc.AllocIP(context.Background(), &rpc.AllocIPRequest{K8SPodNamespace: "ns", K8SPodName: "p0", K8SPodInfraContainerId: "c1", Netns: "/proc/11/ns/net"})
+	if err1 != nil || r1 == nil || !r1.Success {
+		return
+	}
+	rec1, has1 := st.recs["ns/p0"]
+	zz.Assert(has1 && rec1.ContainerID != nil && *rec1.ContainerID == "c1" && len(rec1.Resources) >= 1, "the first ADD is recorded")
+	nPut1 := zzCount(w, "put")
+	// the sandbox is re-created
+	r2, err2 := svc.AllocIP(context.Background(), &rpc.AllocIPRequest{K8SPodNamespace: "ns", K8SPodName: "p0", K8SPodInfraContainerId: "c2", Netns: "/proc/22/ns/net"})
+	if err2 != nil || r2 == nil || !r2.Success {
+		return
+	}
+	zz.Reach("second ADD acknowledged")
+	rec2, has2 := st.recs["ns/p0"]
+	zz.Assert(has2 && rec2.ContainerID != nil && *rec2.ContainerID == "c2", "an acknowledged ADD for a re-created sandbox is durable: the record names the new sandbox")
+	zz.Assert(has2 && rec2.NetNs != nil && *rec2.NetNs == "/proc/22/ns/net", "the record names the new network namespace")
+	zz.Assert(zzCount(w, "put") == nPut1+1, "every acknowledged ADD writes its record")
+	// a late DEL for the old sandbox is stale: it neither releases the address nor drops the record
+	nRel := zzCount(w, "release")
+	_, err3 := svc.ReleaseIP(context.Background(), &rpc.ReleaseIPRequest{K8SPodNamespace: "ns", K8SPodName: "p0", K8SPodInfraContainerId: "c1"})
+	_, still := st.recs["ns/p0"]
+	zz.Assert(err3 == nil && still && zzCount(w, "release") == nRel, "a late DEL for the old sandbox leaves the live sandbox's address and record alone")
+}
+
 // C05(a): crash cuts of a DEL: an acknowledged DEL is durable (record gone);
 // at every cut before the record deletion the record is still complete, so a
 // restart re-binds the addresses to the pod (never offered to another pod)
